@@ -271,6 +271,34 @@ def check_live(c, st):
                 sig += ':%s:%s' % ('nested-class' if c['exc'] in ('InnerErr', 'DeeperErr') else 'class',
                                    'empty-message' if (str(ev) == '') else 'message')
             return (sig, 'boltons %r vs interpreter %r (case %r)' % (got_text[-300:], want_text[-300:], c))
+        # the interpreter's own text (marker lines included) and boltons' rendering of the same exception are
+        # "traceback texts in the interpreter's standard format": parse them and compare with extract_tb
+        full = ''.join(traceback.format_exception(et, ev, tb))
+        mod_name = getattr(et, '__module__', 'builtins')
+        want_type = et.__qualname__ if mod_name in ('builtins', '__main__') else mod_name + '.' + et.__qualname__
+        want_msg = str(ev)
+        for variant, text in (('interpreter', full), ('interpreter-no-final-newline', full.rstrip('\n')),
+                              ('boltons-formatted', formatted)):
+            st.monitor_evals += 1
+            try:
+                pe = tbu.ParsedException.from_string(text)
+                pf = [(f['filepath'], int(f['lineno']), f['funcname'], (f.get('source_line') or '').strip())
+                      for f in pe.frames]
+                back = pe.to_string()
+            except Exception as e:
+                return ('live-text:parse-raised:%s' % type(e).__name__,
+                        'from_string/to_string on the %s text raised %r: %r' % (variant, e, text[-300:]))
+            if pf != want_frames:
+                i = next((i for i, (a, b) in enumerate(zip(pf, want_frames)) if a != b), min(len(pf), len(want_frames)))
+                return ('live-text:frames:' + variant, 'parsed frame %d of the %s text: %r, traceback module %r (case %r)'
+                        % (i, variant, pf[i:i + 1], want_frames[i:i + 1], c))
+            if pe.exc_type != want_type or pe.exc_msg != want_msg:
+                return ('live-text:exception-line:' + variant, 'parsed (%r, %r) from the %s text, raised (%r, %r)'
+                        % (pe.exc_type, pe.exc_msg, variant, want_type, want_msg))
+            if back.rstrip('\n') != want_text:
+                return ('live-text:to_string:' + variant, 'to_string() after parsing the %s text gives %r, text '
+                        '(markers aside) is %r' % (variant, back[-300:], want_text[-300:]))
+            st.count('live_text_parses')
         st.see(('live', tuple(c['chain']), c['exc'], c['msg']))
         st.count('live_cases')
         st.peak('max_chain_depth', len(c['chain']))
